@@ -951,6 +951,12 @@ func (b *binding) bindFromItem(item FromItem, sc *scope, left []int) []int {
 		if t.WithOrdinality {
 			r.cols = append(r.cols, "ordinality")
 			r.types = append(r.types, "int8")
+		} else if def != nil && def.ret != nil && len(t.ColAliases) == 0 {
+			// a whole-row reference to a function returning a composite type has that type (unnest(nodecomposite[]) AS x; SELECT x)
+			rt := def.ret(argTypes)
+			if cd, isComposite := composites[rt]; isComposite && len(r.cols) == len(cd.Fields) {
+				r.rowType = rt
+			}
 		}
 		applyAliases(r, t.Alias, t.ColAliases, b, t.Pos)
 		idx := b.addRTE(sc, r, t.Pos)
